@@ -13,6 +13,12 @@ func Selector(t *sim.Tape, ssb builder.SelectorSpecBuilder, depth int, inRec boo
 	return genSelector(t, ssb, depth, inRec, noSubset)
 }
 
+// FieldHints, when set, are key names that exist in the graph about to be walked:
+// field selectors draw half of their names from them, so that selectors with several
+// interests actually meet several children. (Set by the scenario before drawing; one
+// simulated world runs at a time per process.)
+var FieldHints []string
+
 func genSelector(t *sim.Tape, ssb builder.SelectorSpecBuilder, depth int, inRec bool, noSubset bool) builder.SelectorSpec {
 	if depth > 3 {
 		return ssb.Matcher()
@@ -40,6 +46,9 @@ func genSelector(t *sim.Tape, ssb builder.SelectorSpecBuilder, depth int, inRec 
 			used := map[string]bool{}
 			for i := 0; i < n; i++ {
 				f := []string{"a", "b", "c", "d", "k", "x", "y", "next", "left", "right", "data", "0", "1", "7"}[t.Choice(14, "sel.field")]
+				if len(FieldHints) > 0 && t.Bool("sel.hinted") {
+					f = FieldHints[t.Choice(len(FieldHints), "sel.hint")]
+				}
 				if used[f] {
 					continue
 				}
